@@ -16,6 +16,17 @@ inductive Op where
   | fromUll (o v : Nat)
   | fromStr (o : Nat) (str : List Nat) (pos n zeroCh oneCh : Nat)
   | fromCstr (o : Nat) (buf : List Nat) (n zeroCh oneCh : Nat)
+  -- calls that leave trailing arguments to their defaults (`none` = argument not passed)
+  | setD (o pos : Nat)                         -- `set(pos)`: `value` defaulted
+  | fromStrD (o : Nat) (str : List Nat) (pos n zeroCh oneCh : Option Nat)
+  | fromCstrD (o : Nat) (buf : List Nat) (n zeroCh oneCh : Option Nat)
   deriving Repr
+
+/-- the value of a parameter with a default argument: the argument when one is passed, else the
+    default written in the declaration -/
+def arg (a : Option Nat) (dflt : Nat) : Nat :=
+  match a with
+  | some x => x
+  | none => dflt
 
 end Tetl.C17
